@@ -249,3 +249,38 @@ Lemma premises_satisfiable :
   /\ (forall b, id_inflate (id_deflate b) = Some b).
 Proof. split; [repeat constructor; vm_compute; try reflexivity; intros; discriminate | reflexivity]. Qed.
 Close Scope N_scope.
+
+(* ---- WebSocket transports: the adapter is a chunk oracle with carry (Proofs/WsConn.v), so the reader run
+   over it equals the oracle-free parser on the concatenation of the messages, whatever the message
+   boundaries are ---- *)
+From TX Require Import Model.WsConn Proofs.WsConn.
+Section Ws.
+  Variable MaxBody : N.
+  Variable deflate : list byte -> list byte.
+  Variable inflate : list byte -> option (list byte).
+  Variable json_norm : list byte -> option (list byte).
+  Hypothesis inflate_deflate : forall b, inflate (deflate b) = Some b.
+  Hypothesis MaxBody_u32 : (MaxBody < 4294967296)%N.
+
+  Theorem ws_reader_is_parser (msgs : list (list byte)) :
+    Framing.read_all current_variant MaxBody inflate json_norm (S (length (concat msgs)))
+                     (ws_abs {| w_buf := []; w_msgs := msgs |})
+    = Framing.parse_stream current_variant MaxBody inflate json_norm (concat msgs).
+  Proof.
+    unfold Framing.parse_stream.
+    rewrite (read_all_spec MaxBody deflate inflate json_norm (S (length (concat msgs)))
+                           (ws_abs {| w_buf := []; w_msgs := msgs |})); [reflexivity|].
+    cbn. lia.
+  Qed.
+
+  Theorem ws_roundtrip cps (msgs : list (list byte)) :
+    Forall (wf_packet MaxBody deflate json_norm) cps ->
+    concat msgs = Framing.encode_all current_variant deflate cps ->
+    Framing.read_all current_variant MaxBody inflate json_norm (S (length (concat msgs)))
+                     (ws_abs {| w_buf := []; w_msgs := msgs |})
+    = map (expect deflate) cps ++ [PErr EEnd 0].
+  Proof.
+    intros Hwf Hm. rewrite ws_reader_is_parser, Hm. unfold Framing.parse_stream.
+    apply (parse_all_encode_all MaxBody deflate inflate json_norm inflate_deflate MaxBody_u32 cps Hwf). lia.
+  Qed.
+End Ws.
